@@ -91,8 +91,8 @@ fn c05_witness(reject: bool, clean: bool, ok: bool, err: bool, n_findings: usize
 //@ harness: c05_check_pack_clean_means_intact
 //@ prop: C05
 //@ tier: quick
-//@ timeout: 1500
-//@ mem: 16
+//@ timeout: 3000
+//@ mem: 20
 //@ unwindset: hasher.*hash=190; stub_hash=190; decrypt_data=80
 //@ kernel: commands::check::check_pack (size / pack-hash / trailer-length / trailer-vs-index comparison, per-blob decrypt + hash), CheckResultsCollector::add_error, PackHeaderRef::{from_index_pack,size}, IndexPack::pack_size
 //@ bound: one pack file of 178 symbolic bytes checked against an index entry of two uncompressed blobs of 34 bytes (2 payload bytes each) with symbolic ids (2 significant bytes), symbolic pack id, symbolic common blob type; trailer entries restricted to the uncompressed kinds; AEAD verdict: accepts every frame (this harness) / rejects (c05_check_pack_rejecting_key)
@@ -116,7 +116,7 @@ pub(crate) fn c05_check_pack_clean_means_intact() { check_pack_case::<false, fal
 //@ harness: c05_check_pack_rejecting_key
 //@ prop: C05 C04
 //@ tier: quick
-//@ timeout: 1500
+//@ timeout: 3000
 //@ mem: 16
 //@ unwindset: hasher.*hash=190; stub_hash=190; decrypt_data=80
 //@ kernel: as c05_check_pack_clean_means_intact
@@ -139,8 +139,8 @@ pub(crate) fn c05_check_pack_rejecting_key() { check_pack_case::<true, false, PA
 //@ harness: c05_check_pack_compressed_blob
 //@ prop: C05
 //@ tier: thorough
-//@ timeout: 2400
-//@ mem: 20
+//@ timeout: 3600
+//@ mem: 22
 //@ unwindset: hasher.*hash=190; stub_hash=190; decrypt_data=84
 //@ kernel: as c05_check_pack_clean_means_intact, plus the compressed-blob branch (decode + recorded-length comparison)
 //@ bound: as c05_check_pack_clean_means_intact with 182 symbolic bytes where the second blob is a compressed one (41-byte trailer entry; zstd model 0xFD || data; the recorded uncompressed length is symbolic)
